@@ -95,6 +95,10 @@ def cases(tier, seed, i, n):
                             yield dict(kind='hist', hs=hs, seq=seq, seg='perstep', faults=[[op, k, fk]])
         for c in connect_phase_cases():
             yield c
+        # a timeout fires while an application thread is stalled in a send on this connection (peer alive, not reading)
+        for timer in ('ping_timeout', 'close_timeout'):
+            for astuck in ('send_binary', 'send_ping'):
+                yield dict(kind='stalled-writer', timer=timer, astuck=astuck)
         for hs in HS:
             for d in range(0, depth + 1):
                 if hs in ('200', 'wrong-accept', 'oversize') and d > 1:
@@ -127,6 +131,8 @@ def connect_phase_cases():
 def run_case(case, acc):
     if case['kind'] == 'conn':
         return run_conn(case, acc)
+    if case['kind'] == 'stalled-writer':
+        return run_stalled_writer(case, acc)
     pols = [case['policy']] if 'policy' in case else PNAMES
     tims = [case['timer']] if 'timer' in case else sorted(TIMERS)
     for pn in pols:
@@ -242,6 +248,76 @@ def overdue_timeout(run, w, ckw):
 
 URL_SHAPES = ('ws://example.com/', 'ws://example.com/', 'ws://example.com:8080/a/b?x=1', 'ws://user:pw@example.com/u',
               'ws://[2001:db8::7]:81/six', 'ws://example.com/caf\u00e9/\u2603?name=J\u00fcrgen', 'ws://EXAMPLE.com?q=%7E')
+
+
+def run_stalled_writer(case, acc):
+    """"iteration always terminates once ... a timeout has fired": here it fires while another thread of the
+    application is stalled inside a send on the same connection (the peer is alive but has stopped reading, so the
+    write neither completes nor fails).  Controlled scheduler: "stalled" is a logical state, not a sleep."""
+    from .. import sched, simnet, schedlock, env as _env
+    timer = case['timer']
+    ckw = dict(ping_rate=0, poll=1.0, ping_timeout=3.0) if timer == 'ping_timeout' else dict(ping_rate=0, poll=1.0, close_timeout=2.0)
+    with sched.InstalledShim():
+        w = H.World(H.hs_server([('at', 0.5), ('raw', refws.enc_frame(1, b'go'))]), split_send=True, horizon=30.0, stop_at=30.0)
+        with simnet.Installed(w):
+            ws = _env.WebSocket('ws://example.com/', proxies={})
+            g = ws.connect(session_class=simnet.SimSession, **ckw)
+            for ev in g:
+                if ev.name == 'poll':
+                    break
+            s = sched.Scheduler(files=sched.WRITE_PATH_FILES)
+            stuck = schedlock.SchedLock(False)
+            stuck.owner = 'never-released'
+            st = {'a_in_write': False}
+
+            def hook(tag):
+                if s.current is not None and s.current.name == 'A':
+                    st['a_in_write'] = True
+                    s.current.blocked_on = stuck
+                    s.switch_away()
+                else:
+                    s.yield_point(tag)
+            w.yield_hook = hook
+            events = []
+
+            def thread_a():
+                if case['astuck'] == 'send_ping':
+                    ws.send_ping(b'stalled')
+                else:
+                    ws.send_binary(b'stalled ' * 40)
+
+            def thread_b():
+                try:
+                    for _ in range(40):
+                        ev = next(g)
+                        events.append(ev.name)
+                        if ev.name == 'text' and timer == 'close_timeout':
+                            try:
+                                ws.close(1000, 'bye')
+                            except _env.lerrors.WebSocketError:
+                                pass
+                        if ev.name == 'disconnected':
+                            break
+                except (StopIteration, simnet.Quiesced):
+                    events.append('<end>')
+
+            s.spawn('A', thread_a)
+            s.spawn('B', thread_b)
+            s.run(first=0, timeout=20.0)
+    acc.count2('oracle', 'stalled_writer_runs')
+    detail = dict(events=[e for e in events if e != 'poll'], polls=events.count('poll'), a_reached_write=st['a_in_write'],
+                  deadlock=s.deadlock, hung=s.hung, timer=timer)
+    if s.hung:
+        acc.inconclusive.append('stalled-writer run: scheduler watchdog %r' % (detail,))
+        return
+    if not st['a_in_write']:
+        acc.inconclusive.append('stalled-writer run: thread A never reached the socket write %r' % (detail,))
+        return
+    if 'disconnected' not in events:
+        acc.violation('no-termination-after-timeout-fired:close-waits-for-a-send-stalled-on-the-same-connection',
+                      'C07: %s fires while another thread is stalled in %s' % (timer, case['astuck']), case, detail)
+    else:
+        acc.cls('stalled-writer/%s/%s' % (timer, case['astuck']))
 
 
 def run_conn(case, acc):
